@@ -39,11 +39,13 @@ def roland_payload():
     samples = {0: {"name": "FWD", "chain": [3, 2], "points": [5, 5, 6000, 5, 6000], "mode": 2, "seq": 1},
                1: {"name": "REV", "chain": [4, 6], "points": [0, 0, 5999, 0, 5999], "mode": 5, "seq": 2},
                2: {"name": "ELSE", "chain": [5], "points": [0, 0, 99, 0, 99], "mode": 0, "seq": 3},
-               3: {"name": "CONT", "chain": [7, 8, 9], "points": [0, 0, 13000, 0, 13000], "mode": 2, "seq": 4}}
+               3: {"name": "CONT", "chain": [7, 8, 9], "points": [0, 0, 13000, 0, 13000], "mode": 2, "seq": 4},
+               # leading-cluster offset > 0 and referenced from both performances (realised again by `ls VOL/PERF1`)
+               4: {"name": "TOP", "chain": [12, 10, 11], "cluster_top": 1, "points": [3, 3, 9000, 3, 9000], "mode": 2, "seq": 5}}
     model = {"volumes": [{"name": "VOL", "perfs": [0, 1]}],
              "performances": {0: {"name": "PERF0", "patches": [0]}, 1: {"name": "PERF1", "patches": [1]}},
              "patches": {0: {"name": "PATCH0", "partials": [0]}, 1: {"name": "PATCH1", "partials": [1]}},
-             "partials": {0: {"name": "PART0", "samples": [0, 1, 3]}, 1: {"name": "PART1", "samples": [2]}},
+             "partials": {0: {"name": "PART0", "samples": [0, 1, 3, 4]}, 1: {"name": "PART1", "samples": [2, 4]}},
              "samples": samples}
     return R.build_roland(model)[0]
 
@@ -216,6 +218,11 @@ def configs(quick):
     out.append({"name": "roland:aligned", "kind": "roland", "parts": [
         P(R3, ("read", CL), ("read", CL), ("read", 4096)), P(R0, ("read", 4096), ("read", 4096)),
         {"path": [], "ops": [["ls", "VOL/PERF1"]], "stepwise": True}]})
+    R4 = ("VOL", "PERF0", "TOP")
+    out.append({"name": "roland:shared-sample-cluster-top", "kind": "roland", "parts": [
+        P(R4, ("read", 4096), ("read", CL), ("read", 4096)),
+        {"path": [], "ops": [["ls", "VOL/PERF1"], ["ls", "VOL/PERF1/TOP"]], "stepwise": True},
+        P(("VOL", "PERF1", "TOP"), ("read", 2), ("read", 4096))]})
     T1, T2, T3 = ("ONE",), ("TWO",), ("THREE",)
     out.append({"name": "cdda:3x2", "kind": "cdda", "parts": [
         P(T1, ("read", 4096), ("read", 2352 + 1)), P(T2, ("read", 1), ("read", 4096)), P(T3, ("seek", 2352), ("read", 4096))]})
